@@ -4,12 +4,17 @@ import SlipVerif.Driver.Util
 /- line protocol for C11:   flav run vm=<m,…> <token>*
    tokens, in chronological order (no blanks inside a token):
      F:<name>:<comp,…>:<slot=default;…>   defflavor (default `-` = none)
-     M:<flavor>:<p|b|a|w>:<msg>:<id>      defmethod / defwhopper
+     F:<name>:<comp,…>:<slot=…>:<incl,…>  the same with :included-flavors (appended to the components)
+     M:<flavor>:<p|b|a|w>:<msg>:<id>      defmethod / defwhopper (the whopper body continues once)
+     W:<flavor>:<msg>:<id>:<d,…>          defwhopper whose body makes one (continue-whopper (+ arg d)) per d
+     A:<flavor>:<msg>:<arg>               observe (send inst msg arg), events with arguments
      S:<flavor>:<msg>                     observe (send inst msg) on an instance of flavor
      V:<flavor>:<slot>                    observe the inherited slot (variable default / keyword)
      P:<flavor>                           observe the precedence list
    reply: ok <segment>*  one segment per observation:
-     S=<ev,…>/r<id|->   events wi<id> wo<id> b<id> p<id> a<id>;  S=!<error> when send is rejected
+     S=<ev,…>/r<id|-|w<id>>   events wi<id> wo<id> b<id> p<id> a<id>;  S=!<error> when send is rejected,
+                              S=!handled:<h> when the default handler <h> got the message
+     A=<ev@arg,…>/r<id>@<arg>|-|w<id>
      V=<int>|nil|none   P=<name,…>
    or  err <class>@<token index>  when a form is rejected (the history stops there). -/
 namespace SlipVerif.Driver.Flavors
@@ -17,6 +22,8 @@ open SlipVerif.Flavors SlipVerif.Driver
 
 inductive Tok where
   | form (f : Form)
+  | whop (fl : Name) (m : Msg) (id : Mid) (ds : List Int)
+  | obsSendA (fl : Name) (m : Msg) (a : Int)
   | obsSend (fl : Name) (m : Msg)
   | obsSlot (fl : Name) (s : Slot)
   | obsPrec (fl : Name)
@@ -35,6 +42,9 @@ def slotList? (s : String) : Option (List (Slot × Option Int)) :=
         some (k, some v)
     | _ => none)
 
+def intList? (s : String) : Option (List Int) :=
+  if s.isEmpty then some [] else (s.splitOn ",").mapM (·.toInt?)
+
 def kind? : String → Option Kind
   | "p" => some .primary
   | "b" => some .before
@@ -49,12 +59,30 @@ def parseTok (s : String) : Option Tok :=
       let cs ← natList? cs
       let sl ← slotList? sl
       some (.form (.defflavor n cs sl))
+  | ["F", n, cs, sl, inc] => do
+      -- :included-flavors of a non-abstract flavor: inherited after the written components
+      let n ← n.toNat?
+      let cs ← natList? cs
+      let sl ← slotList? sl
+      let inc ← natList? inc
+      some (.form (.defflavor n (cs ++ inc) sl))
   | ["M", fl, k, m, id] => do
       let fl ← fl.toNat?
       let k ← kind? k
       let m ← m.toNat?
       let id ← id.toNat?
       some (.form (.defmethod fl k m id))
+  | ["W", fl, m, id, ds] => do
+      let fl ← fl.toNat?
+      let m ← m.toNat?
+      let id ← id.toNat?
+      let ds ← intList? ds
+      some (.whop fl m id ds)
+  | ["A", fl, m, a] => do
+      let fl ← fl.toNat?
+      let m ← m.toNat?
+      let a ← a.toInt?
+      some (.obsSendA fl m a)
   | ["S", fl, m] => do
       let fl ← fl.toNat?
       let m ← m.toNat?
@@ -78,10 +106,33 @@ def showErr : Err → String
   | .alreadyDefined => "already-defined"
   | .noMethod => "no-method"
 
-def showSend : Except Err (List Ev × Option Mid) → String
-  | .ok (evs, r) =>
-    "S=" ++ ",".intercalate (evs.map showEv) ++ "/r" ++ (match r with | some id => toString id | none => "-")
-  | .error e => "S=!" ++ showErr e
+def showEvA : EvA → String
+  | .whopIn id a => s!"wi{id}@{a}"
+  | .whopOut id a => s!"wo{id}@{a}"
+  | .before id a => s!"b{id}@{a}"
+  | .primary id a => s!"p{id}@{a}"
+  | .after id a => s!"a{id}@{a}"
+
+/-- `withArgs = false`: the S observation (events and result without arguments) -/
+def showOutcome (withArgs : Bool) : Outcome → String
+  | .ran evs r =>
+    let tag := if withArgs then "A=" else "S="
+    let es := if withArgs then evs.map showEvA else evs.map (fun e => showEv e.erase)
+    let rs := match r with
+      | .none => "-"
+      | .primary id a => if withArgs then s!"{id}@{a}" else toString id
+      | .whopper w => s!"w{w}"
+    tag ++ ",".intercalate es ++ "/r" ++ rs
+  | .handled hd => (if withArgs then "A=" else "S=") ++ s!"!handled:{hd}"
+  | .noMethod => (if withArgs then "A=" else "S=") ++ "!" ++ showErr .noMethod
+  | .undefinedFlavor => (if withArgs then "A=" else "S=") ++ "!" ++ showErr .undefinedFlavor
+
+/-- the bodies of the whoppers defined so far: `W` tokens record theirs, every other whopper
+    continues once with its argument unchanged -/
+def bodyOf (tbl : List (Mid × List Int)) : WhopBody :=
+  fun w => match tbl.find? (fun p => p.1 == w) with
+    | some p => p.2
+    | none => [0]
 
 def showSlot : Option (Option Int) → String
   | none => "V=none"
@@ -89,21 +140,29 @@ def showSlot : Option (Option Int) → String
   | some (some v) => s!"V={v}"
 
 /-- forms are applied with `step` (the function `run` folds); observations read the state -/
-def exec : State → List Tok → Nat → List String → String
-  | _, [], _, out => "ok " ++ " ".intercalate out.reverse
-  | st, t :: rest, i, out =>
+def exec : State → List (Mid × List Int) → List Tok → Nat → List String → String
+  | _, _, [], _, out => "ok " ++ " ".intercalate out.reverse
+  | st, tbl, t :: rest, i, out =>
     match t with
     | .form f =>
       match step st f with
-      | .ok st' => exec st' rest (i + 1) out
+      | .ok st' => exec st' tbl rest (i + 1) out
       | .error e => s!"err {showErr e}@{i}"
-    | .obsSend fl m => exec st rest (i + 1) (showSend (send st fl m) :: out)
-    | .obsSlot fl s => exec st rest (i + 1) (showSlot (if st.defd fl then st.slots fl s else none) :: out)
+    | .whop fl m id ds =>
+      match step st (.defmethod fl .whopper m id) with
+      | .ok st' => exec st' ((id, ds) :: tbl) rest (i + 1) out
+      | .error e => s!"err {showErr e}@{i}"
+    | .obsSend fl m => exec st tbl rest (i + 1) (showOutcome false (sendA (bodyOf tbl) st fl m 0) :: out)
+    | .obsSendA fl m a => exec st tbl rest (i + 1) (showOutcome true (sendA (bodyOf tbl) st fl m a) :: out)
+    | .obsSlot fl s => exec st tbl rest (i + 1) (showSlot (if st.defd fl then st.slots fl s else none) :: out)
     | .obsPrec fl =>
-      exec st rest (i + 1) (("P=" ++ ",".intercalate ((fl :: st.inh fl).map toString)) :: out)
+      exec st tbl rest (i + 1) (("P=" ++ ",".intercalate ((fl :: st.inh fl).map toString)) :: out)
 
 def forms (ts : List Tok) : List Form :=
-  ts.filterMap (fun t => match t with | .form f => some f | _ => none)
+  ts.filterMap (fun t => match t with
+    | .form f => some f
+    | .whop fl m id _ => some (.defmethod fl .whopper m id)
+    | _ => none)
 
 def handle (entry : String) (args : List String) : String :=
   match entry, args with
@@ -111,7 +170,7 @@ def handle (entry : String) (args : List String) : String :=
     match vmArg.splitOn "=" with
     | ["vm", vms] =>
       match natList? vms, toks.mapM parseTok with
-      | some vm, some ts => exec (init vm) ts 0 []
+      | some vm, some ts => exec (init vm) [] ts 0 []
       | _, _ => "bad-request token"
     | _ => "bad-request vm"
   | _, _ => "bad-request entry"
